@@ -280,9 +280,13 @@ class Interp:
             return False
         if a[0] == "cls" and b[0] == "cls":
             return a[1] is b[1]
-        if a[0] in ("node", "obj") and b[0] == "c":
+        if a[0] in ("node", "obj", "ext", "closure", "bound", "cls", "clsmethod") and b[0] == "c":
             return False
-        if b[0] in ("node", "obj") and a[0] == "c":
+        if b[0] in ("node", "obj", "ext", "closure", "bound", "cls", "clsmethod") and a[0] == "c":
+            return False
+        if a[0] in ("list", "dict") and b[0] == "c" and b[1] is None:
+            return False
+        if b[0] in ("list", "dict") and a[0] == "c" and a[1] is None:
             return False
         if a[0] == "node" and b[0] == "node":
             return a[1] is b[1]
@@ -684,6 +688,10 @@ class Interp:
                 last = self.expr(x, env, depth)
                 if i == len(e.values) - 1:
                     return last
+                if last[0] in ("fn", "unk") and self.pure_depth == 0:
+                    # `a or b` / `a and b` used as a value with an opaque first operand: keep it symbolic
+                    rest = [self.expr(y, env, depth) for y in e.values[i + 1:]]
+                    return ("fn", type(e.op).__name__.lower(), [last] + rest)
                 t = self.truth(last, unparse(x))
                 if isinstance(e.op, ast.And) and not t:
                     return last
@@ -1318,6 +1326,11 @@ class Interp:
             return self.method_call(recv, name, args, kwargs, env, depth, e)
         if k == "clsmethod":
             c, name = fv[1], fv[2]
+            h = self.hooks.get("classmethod:" + name)
+            if h is not None:
+                r = h(self, c, args, kwargs, env, depth, e)
+                if r is not None:
+                    return r
             kk, m = self.repo.find_method(c, name)
             if func_is_static(m):
                 return self.call_function(m, kk, None, args, kwargs, depth=depth + 1)
